@@ -601,4 +601,10 @@ def Plan.call (p : Plan) (v6 : Bool) : Call :=
 def Plan.active (p : Plan) (v6 : Bool) : Bool :=
   !(p.call v6).subnets.isEmpty || !(p.call v6).nslist.isEmpty
 
+/-- The commands of the `setup_firewall` calls `firewall.main` makes (firewall.py:334-345): the
+IPv6 call first, then the IPv4 call, each only if that family has entries or name servers. -/
+def Plan.cmds (cmdsOf : Call → List Cmd) (p : Plan) : List Cmd :=
+  (if p.active true then cmdsOf (p.call true) else []) ++
+  (if p.active false then cmdsOf (p.call false) else [])
+
 end Sshuttle.Fw
